@@ -231,6 +231,7 @@ func (x *Message) SignBytes() (signBytes []byte) {
 			HighQc:                 x.HighQc,
 			LastDoubleSignEvidence: x.LastDoubleSignEvidence,
 			RcBuildHeight:          x.RcBuildHeight, // replicas validate the proposal against this root height, it must be authenticated
+			Timestamp:              x.Timestamp,     // replicas hand the COMMIT timestamp on with the block, it must be authenticated
 		}
 		// phase ELECTION doesn't have a QC, but also
 		// the sign bytes function is used prior to the
